@@ -1,6 +1,8 @@
 """Path tables: enumerate the structural paths of a (loop-free at top level) function body and
 give, per path, its conditions, ordered effects and resulting value -- the as-built decision
 table that rules compare with hand-written expectations."""
+import re
+
 import hir as H
 import sym as S
 from core import Unrecognised
@@ -55,16 +57,99 @@ class Enumerator(object):
         self.ctx = ctx
         self.ev = ctx.evaluator(0)
         self.max_paths = max_paths
+        self.stack = []          # helpers being walked path-wise
+        self.closure_fx = {}     # closure def -> [(event, effect string)] recorded when the closure expression was evaluated
 
     def leaf(self, node, path):
         """Evaluate a control-flow-free expression on this path; returns the term and records effects."""
         n0 = len(self.ev.events)
         t = self.ev.eval(node, path.env, [], None, [])
         for e in self.ev.events[n0:]:
+            if e.kind == 'callclosure' and e.callee in self.closure_fx:
+                # a locally defined closure is called here: its body's effects happen now, with the
+                # arguments substituted -- not where the closure expression was written
+                f = e.extra
+                for de, ds in self.closure_fx[e.callee]:
+                    if ds in path.effects:
+                        path.effects.remove(ds)
+                for de, ds in self.closure_fx[e.callee]:
+                    term, lhs = de.term, de.lhs
+                    for (nm, pid), a in zip(f[2], e.args):
+                        term = S.replace(term, ('var', nm, pid), a)
+                        if lhs is not None:
+                            lhs = S.replace(lhs, ('var', nm, pid), a)
+                    s2 = effect_of(S.Event(kind=de.kind, term=term, lhs=lhs, extra=de.extra))
+                    if s2 is not None:
+                        path.effects.append(s2)
+                continue
+            if e.kind == 'call' and isinstance(e.extra, dict) and e.extra.get('inlined'):
+                continue  # the call of a helper that is read through: its body's effects follow
             s = effect_of(e)
             if s is not None:
+                cl = [g for g in e.guards if g[2] == 'closure']
+                if cl:
+                    self.closure_fx.setdefault(cl[-1][3], []).append((e, s))
                 path.effects.append(s)
         return t
+
+    def helper_target(self, node):
+        """A call of a crate-local helper the oracle vocabulary does not know and whose body branches:
+        walked path-wise, as if its body stood at the call site."""
+        if node.get('k') not in ('Call', 'MethodCall'):
+            return None
+        cp = H.callee_path(node)
+        if cp is None:
+            return None
+        npath = H.norm_path(cp)
+        target = self.ev.fns.get(npath)
+        if target is None or 'hir' not in target or not self.ctx.new_helper(npath) or npath in self.stack or len(self.stack) >= 3:
+            return None
+        if not self.has_ctl(target['hir']):
+            return None
+        if any(self.has_ctl(a) for a in H.call_args(node)):
+            return None
+        return npath, target
+
+    def inline_helper(self, node, npath, target, path):
+        args = [self.leaf(a, path) for a in H.call_args(node)]
+        for a in args:
+            if a is not None and a[0] == 'closure':
+                # handed to a helper we read through: the body runs where (and if) the helper calls it
+                for de, ds in self.closure_fx.get(a[1], []):
+                    if ds in path.effects:
+                        path.effects.remove(ds)
+        params = target.get('params', [])
+        if len(params) != len(args):
+            raise Unrecognised('helper %s: %d parameters, %d arguments' % (npath, len(params), len(args)))
+        saved_env = path.env
+        saved_mut = self.ev.mutated
+        saved_ty = self.ev.tyenv
+        self.ev.mutated = dict(saved_mut)
+        self.ev.mutated.update(self.ev.mutated_locals(npath, target))
+        gens = target.get('generics', [])
+        gargs = tuple(node.get('gargs', [])) if node.get('k') == 'MethodCall' else tuple((node.get('f') or {}).get('gargs', []))
+        gargs = tuple(self.ev.tyenv.get(g, g) for g in gargs)
+        self.ev.tyenv = dict(zip(gens, gargs)) if len(gens) == len(gargs) else {}
+        env = {}
+        for prm, a in zip(params, args):
+            if prm.get('k') == 'Bind' and a is not None and a[0] == 'var':
+                self.ev.mutated.pop(prm['id'], None)
+            self.ev.bind_pat(prm, a, env)
+        sub = path.fork(env=env)
+        self.stack.append(npath)
+        try:
+            outs = self.run(target['hir'], sub)
+        finally:
+            self.stack.pop()
+            self.ev.mutated = saved_mut
+            self.ev.tyenv = saved_ty
+        for p in outs:
+            if p.done == 'return':
+                p.done = None
+            elif p.done in ('break', 'continue', 'iterate'):
+                raise Unrecognised('helper %s leaves a loop of its caller' % npath)
+            p.env = dict(saved_env)
+        return outs
 
     def has_ctl(self, node):
         for n in H.walk(node):
@@ -206,6 +291,23 @@ class Enumerator(object):
                 p.value = ('unit',)
                 out.append(p)
             return out
+        if k == 'Try' and self.helper_target(H.peel(node['e'])) is not None and not self.has_ctl(node['e']):
+            out = []
+            for p in self.run(H.peel(node['e']), path):
+                if not p.done:
+                    v = p.value
+                    sv = S.show(v) if v is not None else ''
+                    if sv.startswith('Err(') or re.match(r'^errors::\w+Snafu::fail\(', sv):
+                        p.done = 'return'  # `?` on the helper's error path leaves the caller
+                    elif v is not None and v[0] == 'call' and v[1] in ('Ok', 'std::result::Result::Ok') and len(v[2]) == 1:
+                        p.value = v[2][0]
+                    else:
+                        p.value = ('try', v)
+                out.append(p)
+            return out
+        ht = self.helper_target(node)
+        if ht is not None:
+            return self.inline_helper(node, ht[0], ht[1], path)
         if k == 'Try' and self.has_ctl(node['e']):
             out = []
             for p in self.run(node['e'], path):
